@@ -7,7 +7,7 @@
     net <id> <trusted01> <minfee>      -> <code>      ParseTxNet + HandleNetTx (1000+why when not wanted)
     local <id> <minfee>                -> <code>      usif.LoadRawTx + SubmitLocalTx
     block <height> <minfee> <n> {<id>}*-> ok          the chain connected this block (coinbase left out)
-    undo <minfee>                      -> ok | none   the chain disconnected its last block
+    undo <height> <minfee>             -> ok | none   the chain disconnected its last block
     tip <height>                       -> ok          common.Last.Block moved
     expire <n> {<bidx>}*               -> ok
     evict <n> {<bidx>}*                -> ok | bad-evict
@@ -21,6 +21,7 @@
                                           (K = `dirty` or the sorted list as <bidx>:<SortRank>; G = the ghost flag rankWrap)
 -/
 import GocoinV.Model.Mempool
+import GocoinV.Model.MempoolResync
 import GocoinV.Base.Proto
 open GocoinV GocoinV.Mempool
 
@@ -45,8 +46,6 @@ def hex16 (n : Nat) : String :=
   String.ofList ((List.range 16).reverse.map fun i => Hex.nibble ((n / 16 ^ i) % 16))
 
 def b01 (b : Bool) : String := if b then "1" else "0"
-
-def sortNat (l : List Nat) : List Nat := (l.toArray.qsort (· < ·)).toList
 
 def sortKV {α : Type} (l : List (Nat × α)) : List (Nat × α) := (l.toArray.qsort (fun a b => a.1 < b.1)).toList
 
@@ -101,24 +100,8 @@ def firstBad (s : State) : List Pkg → Nat → Option Nat
   | [], _ => none
   | pk :: r, i => if pkgOK K s pk then firstBad s r (i + 1) else some i
 
-def isPerm (a b : List Nat) : Bool := sortNat a == sortNat b
-
-/-- every flagged parent that is in the list sits before its child -/
-def parentsFirst (s : State) (l : List Nat) : Bool :=
-  let rec go (seen : List Nat) : List Nat → Bool
-    | [] => true
-    | b :: r =>
-      (match s.pool.get? b with
-       | none => false
-       | some t => (memParents K t).all fun p => seen.contains p || !l.contains p) && go (b :: seen) r
-  go [] l
-
-/-- put the observed order into the occupied slots of the ring, keeping the zeroed slots where they are -/
-def refill : List (Option Nat) → List Nat → List (Option Nat)
-  | [], _ => []
-  | none :: r, ks => none :: refill r ks
-  | some _ :: r, k :: ks => some k :: refill r ks
-  | some x :: r, [] => some x :: refill r []
+-- `isPerm`, `refill`, `parentsFirstKeys`, `ringorder`, `setorder`: GocoinV.Model.MempoolResync (invariant
+-- preservation of both resync edits: GocoinV.Proofs.C12Resync)
 
 def step (o : OSt) (toks : List String) : OSt × String :=
   let bad := (o, "bad-op")
@@ -161,10 +144,10 @@ def step (o : OSt) (toks : List String) : OSt × String :=
       | some (txs, []) => ({ o with s := Mempool.step K s (.block h txs mf) }, "ok")
       | _ => bad
     | _, _, _ => bad
-  | ["undo", mf] =>
-    match mf.toNat? with
-    | some mf => if s.undo.isEmpty then (o, "none") else ({ o with s := Mempool.step K s (.undo mf) }, "ok")
-    | none => bad
+  | ["undo", h, mf] =>
+    match h.toNat?, mf.toNat? with
+    | some h, some mf => if s.undo.isEmpty then (o, "none") else ({ o with s := Mempool.step K s (.undo h mf) }, "ok")
+    | _, _ => bad
   | ["tip", h] =>
     match h.toNat? with
     | some h => ({ o with s := Mempool.step K s (.tip h) }, "ok")
@@ -186,14 +169,16 @@ def step (o : OSt) (toks : List String) : OSt × String :=
   | "ringorder" :: n :: rest =>
     match n.toNat?.bind (fun n => takeN parseKey n rest) with
     | some (ks, []) =>
-      let cur := s.ring.filterMap id
-      if isPerm cur ks then ({ o with s := { s with ring := refill s.ring ks } }, "ok") else (o, "bad")
+      match ringorder s ks with
+      | some s => ({ o with s }, "ok")
+      | none => (o, "bad")
     | _ => bad
   | "setorder" :: n :: rest =>
     match n.toNat?.bind (fun n => takeN parseKey n rest) with
     | some (ks, []) =>
-      if !s.sortDirty && isPerm (s.pool.map (·.1)) ks && parentsFirst s ks then ({ o with s := { s with sorted := ks, ranks := rankFrom s.sortStep SORT_START ks } }, "ok")
-      else (o, "bad")
+      match setorder K s ks with
+      | some s => ({ o with s }, "ok")
+      | none => (o, "bad")
     | _ => bad
   | "rbf" :: n :: rest =>
     match n.toNat?.bind (fun n => parsePkgs n rest) with
